@@ -214,7 +214,7 @@ def unionNotes (wk : K) (chans : List (List (Found K))) : List String :=
 any `excludedUsers` list even when the same operand found it -/
 def interNotes (wk : K) (chans : List (List (Found K))) : List String :=
   let out := interR wk chans
-  let ks := dedup (mentioned (chans.flatMap id) ++ chans.flatMap hasKeys)
+  let ks := mentioned (chans.flatMap id)
   noteIf (ks.any (fun k => covers wk out k && !chans.all (fun ch => covers wk ch k))) "inter-no-ignored" ++
   noteIf (ks.any (fun k => !covers wk out k && chans.all (fun ch => covers wk ch k))) "inter-excluded-has"
 
